@@ -8,7 +8,10 @@
 //! `tree` is the span skeleton of the parsed main module: every declaration / statement /
 //! expression as `{"k":kind,"s":start,"e":end,"n":name?,"c":[children...]}` in source order.  The
 //! check script zips it with its own tree to learn the real span of every node id (and thereby
-//! validates that the rendered text parses to the intended tree).
+//! validates that the rendered text parses to the intended tree).  Declaration level (Decls.v
+//! stream): classes carry `"x"` (the `extends` name), traits `"rq"` (the `@requires` entries as
+//! `[name, type]`), methods `"sig"` (`recv|async|param types|return type`), fields `"ty"` and
+//! `"d"` (has a default), so that the check can compare what was parsed with what it generated.
 use crate::common::{catch, each_line};
 use incan::frontend::ast::*;
 use incan::frontend::diagnostics::CompileError;
@@ -147,9 +150,53 @@ fn stmt(st: &Spanned<Statement>) -> Value {
     }
 }
 
+/// canonical text of a written type (declaration-level stream: the check compares it with the type it rendered)
+fn ty_str(t: &Type) -> String {
+    match t {
+        Type::Simple(n) if n == "None" => "None".to_string(),
+        Type::Unit => "None".to_string(),
+        other => other.to_string(),
+    }
+}
+
+/// `recv|async|p1,p2|ret` of a method declaration
+fn sig_str(m: &MethodDecl) -> String {
+    let recv = match m.receiver {
+        Some(Receiver::Mutable) => "mut",
+        Some(Receiver::Immutable) => "self",
+        None => "none",
+    };
+    let ps: Vec<String> = m.params.iter().map(|p| ty_str(&p.node.ty.node)).collect();
+    format!("{}|{}|{}|{}", recv, m.is_async, ps.join(","), ty_str(&m.return_type.node))
+}
+
 fn method(m: &Spanned<MethodDecl>) -> Value {
     let body = m.node.body.as_ref().map(|b| b.iter().map(stmt).collect()).unwrap_or_default();
-    node(if m.node.body.is_some() { "method" } else { "absmethod" }, m.span, Some(&m.node.name), body)
+    let mut v = node(if m.node.body.is_some() { "method" } else { "absmethod" }, m.span, Some(&m.node.name), body);
+    v["sig"] = json!(sig_str(&m.node));
+    v
+}
+
+fn field(f: &Spanned<FieldDecl>) -> Value {
+    let mut v = node("fielddecl", f.span, Some(&f.node.name), vec![node("fieldty", f.node.ty.span, None, vec![])]);
+    v["ty"] = json!(ty_str(&f.node.ty.node));
+    v["d"] = json!(f.node.default.is_some());
+    v
+}
+
+/// the `@requires(name: Type, ...)` entries of a trait, in source order
+fn requires(decs: &[Spanned<Decorator>]) -> Value {
+    let mut out: Vec<Value> = Vec::new();
+    for d in decs {
+        if d.node.name == "requires" {
+            for a in &d.node.args {
+                if let DecoratorArg::Named(n, DecoratorArgValue::Type(t)) = a {
+                    out.push(json!([n, ty_str(&t.node)]));
+                }
+            }
+        }
+    }
+    Value::Array(out)
 }
 
 fn decl(d: &Spanned<Declaration>) -> Value {
@@ -159,21 +206,23 @@ fn decl(d: &Spanned<Declaration>) -> Value {
         Declaration::Enum(e) => node("enum", s, Some(&e.name), vec![]),
         Declaration::Model(m) => {
             let mut ch: Vec<Value> = m.traits.iter().map(|t| node("with", t.span, Some(&t.node), vec![])).collect();
-            for f in &m.fields {
-                ch.push(node("fielddecl", f.span, Some(&f.node.name), vec![node("fieldty", f.node.ty.span, None, vec![])]));
-            }
+            ch.extend(m.fields.iter().map(field));
             ch.extend(m.methods.iter().map(method));
             node("model", s, Some(&m.name), ch)
         }
         Declaration::Class(m) => {
             let mut ch: Vec<Value> = m.traits.iter().map(|t| node("with", t.span, Some(&t.node), vec![])).collect();
-            for f in &m.fields {
-                ch.push(node("fielddecl", f.span, Some(&f.node.name), vec![node("fieldty", f.node.ty.span, None, vec![])]));
-            }
+            ch.extend(m.fields.iter().map(field));
             ch.extend(m.methods.iter().map(method));
-            node("class", s, Some(&m.name), ch)
+            let mut v = node("class", s, Some(&m.name), ch);
+            v["x"] = json!(m.extends);
+            v
         }
-        Declaration::Trait(t) => node("trait", s, Some(&t.name), t.methods.iter().map(method).collect()),
+        Declaration::Trait(t) => {
+            let mut v = node("trait", s, Some(&t.name), t.methods.iter().map(method).collect());
+            v["rq"] = requires(&t.decorators);
+            v
+        }
         Declaration::Import(_) => node("import", s, None, vec![]),
         Declaration::Const(c) => node("const", s, Some(&c.name), vec![expr(&c.value)]),
         _ => node("other_decl", s, None, vec![]),
